@@ -107,14 +107,15 @@ fn inv(op: &Op, _ctx: &dyn Context, data: &mut dyn CoordinateSet) -> usize {
         post[3] as usize,
     ];
 
-    let mult = op.params.series("mult").unwrap_or(&MULT_DEFAULT);
+    // The factors of the reverse mapping (to/from, where the forward ones are from/to),
+    // so that the inverse of "from=A to=B" is, bit for bit, the forward "from=B to=A"
+    let tlum = op.params.series("tlum").unwrap_or(&MULT_DEFAULT);
 
     for i in 0..n {
         let coord = data.get_coord(i);
         let mut c = Coor4D::default();
         for j in 0..4_usize {
-            // Divide, rather than multiply by the (rounded) reciprocal
-            c[post[j]] = coord[j] / mult[j];
+            c[post[j]] = coord[j] * tlum[j];
         }
         data.set_coord(i, &c);
     }
@@ -167,6 +168,7 @@ pub fn new(parameters: &RawParameters, _ctx: &dyn Context) -> Result<Op, Error> 
     ];
     params.series.insert("post", Vec::from(post));
     params.series.insert("mult", Vec::from(give.mult));
+    params.series.insert("tlum", Vec::from(give.tlum));
     let id = OpHandle::new();
 
     Ok(Op {
@@ -183,6 +185,7 @@ pub fn new(parameters: &RawParameters, _ctx: &dyn Context) -> Result<Op, Error> 
 struct CoordinateOrderDescriptor {
     post: [usize; 4],
     mult: [f64; 4],
+    tlum: [f64; 4],
     noop: bool,
 }
 
@@ -194,6 +197,7 @@ fn coordinate_order_descriptor(desc: &str) -> Option<CoordinateOrderDescriptor> 
         return Some(CoordinateOrderDescriptor {
             post,
             mult,
+            tlum: mult,
             noop: true,
         });
     }
@@ -262,7 +266,13 @@ fn coordinate_order_descriptor(desc: &str) -> Option<CoordinateOrderDescriptor> 
     }
     let noop = mult == [1.0; 4] && post == [0_usize, 1, 2, 3];
 
-    Some(CoordinateOrderDescriptor { post, mult, noop })
+    let tlum = mult;
+    Some(CoordinateOrderDescriptor {
+        post,
+        mult,
+        tlum,
+        noop,
+    })
 }
 
 #[allow(clippy::float_cmp)]
@@ -275,6 +285,8 @@ fn combine_descriptors(
         give.post[i] = from.post.iter().position(|&p| p == to.post[i]).unwrap();
         // The sign and unit of the input element actually moved into position i
         give.mult[i] = from.mult[give.post[i]] / to.mult[i];
+        // ...and the factor of the reverse mapping, not rounded twice
+        give.tlum[i] = to.mult[i] / from.mult[give.post[i]];
     }
     give.noop = give.mult == [1.0; 4] && give.post == [0_usize, 1, 2, 3];
     give
